@@ -602,6 +602,7 @@ type heapMergeCase struct {
 	Build  int    `json:"build"`
 	BuildB int    `json:"buildB"`
 	Salt   int    `json:"salt"`
+	Seal   bool   `json:"seal,omitempty"` // pass B (every layer) as a sealed, read-only Container
 }
 
 func heapMergeGen(c *Ctx, g *DocGen, second func(W) W, opt func() string, n int) {
@@ -611,6 +612,7 @@ func heapMergeGen(c *Ctx, g *DocGen, second func(W) W, opt func() string, n int)
 		a := g.Doc(r)
 		mc := heapMergeCase{Opt: opt(), Build: r.Intn(heapBuildModes), Salt: r.Intn(1 << 16)}
 		mc.BuildB = mc.Build
+		mc.Seal = r.Intn(5) == 0
 		if r.Intn(3) == 0 {
 			mc.BuildB = r.Intn(heapBuildModes)
 		}
@@ -658,6 +660,15 @@ func mergedSpineValue(res, x, y dom.Node, meld bool, out *[]dom.Node) {
 	}
 }
 
+// heapSealed hands the container out as the read-only view (`Seal()`: a different Go pointer type
+// to the same object) when seal is set.
+func heapSealed(n dom.Node, seal bool) dom.Container {
+	if cb, ok := n.(dom.ContainerBuilder); ok && seal {
+		return cb.Seal()
+	}
+	return n.(dom.Container)
+}
+
 func heapMergeEval(c *Ctx, raw []byte) {
 	var p heapMergeCase
 	if err := json.Unmarshal(raw, &p); err != nil {
@@ -680,6 +691,9 @@ func heapMergeEval(c *Ctx, raw []byte) {
 		}
 	}
 	c.Dist("heap-merge:opt=" + p.Opt)
+	if p.Seal {
+		c.Dist("heap-merge:sealed")
+	}
 	c.Dist("heap-merge:build=" + heapBuildNames[p.Build])
 	if overlay {
 		c.Dist(fmt.Sprintf("heap-merge:overlay-layers=%d", len(docsW)))
@@ -712,11 +726,11 @@ func heapMergeEval(c *Ctx, raw []byte) {
 		if overlay {
 			ov := dom.NewOverlayDocument()
 			for i, d := range docs {
-				ov.Add(fmt.Sprintf("L%d", i), d.(dom.Container))
+				ov.Add(fmt.Sprintf("L%d", i), heapSealed(d, p.Seal))
 			}
 			res = ov.Merged(c04Opts(p.Opt)...)
 		} else {
-			res = docs[0].(dom.ContainerBuilder).Merge(docs[1].(dom.Container), c04Opts(p.Opt)...)
+			res = docs[0].(dom.ContainerBuilder).Merge(heapSealed(docs[1], p.Seal), c04Opts(p.Opt)...)
 		}
 		snap1 := heapSnapshot(docs)
 		sh := newSharer(enc)
